@@ -712,6 +712,10 @@ func (m *Monitor) Block(h int64, raw [][]byte, res []sim.TxRes, afterDump map[st
 			}
 			p.Path = append(p.Path, st)
 		}
+		if st == SF && rec.FundingGoal != nil && p.total().Cmp(rec.FundingGoal.BigInt()) >= 0 {
+			return viol("voting-start", "goal-met-but-still-funding", "h=%d: proposal %s holds contributions of %s, its goal is %v, and it is still in funding: it can neither be voted on nor, after the funding deadline %d, refunded",
+				h, id, p.total(), rec.FundingGoal, rec.FundingDeadline)
+		}
 		p.Stage = st
 		p.Rec = rec
 	}
